@@ -146,6 +146,32 @@ def swrite (given : Option Name) (chunks : List (List Nat)) : String :=
   " ".intercalate r.2 ++ " | " ++ (match r.1 with | .waiting _ _ => "W" | .encoding _ _ => "E") ++ " | " ++
     encCps (encodeOneShot cpyInnerEnc given chunks.flatten)
 
+/-- `rdec given force n chunk…`: the first `n` chunks (then `decode(b"", True)`), `reset()`, the other chunks
+(then the final call): total of the first run | total of the second run -/
+def rdec (given : Option Name) (force : Bool) (n : Nat) (chunks : List (List Nat)) : String :=
+  let run (s : DSt) (cs : List (List Nat)) : Option (DSt × List Nat) :=
+    match runChunksE cpyInner s cs with
+    | none => none
+    | some r => match stepE cpyInner r.1 [] true with
+      | none => none
+      | some r' => some (r'.1, r.2 ++ r'.2)
+  match run (.waiting given force []) (chunks.take n) with
+  | none => "RAISE | -"
+  | some r1 =>
+    encCps r1.2 ++ " | " ++ (match run (r1.1.reset force) (chunks.drop n) with | none => "RAISE" | some r2 => encCps r2.2)
+
+def renc (given : Option Name) (n : Nat) (chunks : List (List Nat)) : String :=
+  let run (s : ESt) (cs : List (List Nat)) : Option (ESt × List Nat) :=
+    match erunChunksE cpyInnerEnc s cs with
+    | none => none
+    | some r => match estepE cpyInnerEnc r.1 [] true with
+      | none => none
+      | some r' => some (r'.1, r.2 ++ r'.2)
+  match run (.waiting given []) (chunks.take n) with
+  | none => "RAISE | -"
+  | some r1 =>
+    encCps r1.2 ++ " | " ++ (match run r1.1.reset (chunks.drop n) with | none => "RAISE" | some r2 => encCps r2.2)
+
 def handle (line : String) : String :=
   match words line with
   | ["detect", f, b] => match decCps b with
@@ -174,6 +200,16 @@ def handle (line : String) : String :=
       match given, chunks.mapM decCps with
       | some given, some cs => if cs.all isBytes then cdec given (f == "1") cs else "bad-op"
       | _, _ => "bad-op"
+  | "rdec" :: g :: f :: n :: chunks =>
+      let given := if g == "none" then some none else (decCps g).map some
+      match given, n.toNat?, chunks.mapM decCps with
+      | some given, some n, some cs => if cs.all isBytes then rdec given (f == "1") n cs else "bad-op"
+      | _, _, _ => "bad-op"
+  | "renc" :: g :: n :: chunks =>
+      let given := if g == "none" then some none else (decCps g).map some
+      match given, n.toNat?, chunks.mapM decCps with
+      | some given, some n, some cs => renc given n cs
+      | _, _, _ => "bad-op"
   | "sread" :: g :: f :: chunks =>
       let given := if g == "none" then some none else (decCps g).map some
       match given, chunks.mapM decCps with
